@@ -416,7 +416,7 @@ impl Engine for BuildSim {
             }
         }
         let mut ops = vec![];
-        if !user {
+        if !user && !rng.chance(1, 40) {
             ops.push(BuildOp::ReadConn { m: 0 });
         }
         for c in 0..csvs.len() {
@@ -929,13 +929,7 @@ pub fn execute(case: &BuildCase, stats: &mut Stats, work: &Path) -> Option<Viola
                 }
             }
             BuildOp::Compile { faults } => {
-                let _ = conn_read;
-                if !user && !conn_offered {
-                    // a system dictionary always gets a matrix text offered (property's quantifier);
-                    // compiling without one is API misuse and is not simulated
-                    stats.inc("skipped.compile_without_matrix");
-                    continue;
-                }
+                let _ = (conn_read, conn_offered);
                 let mut reference: Vec<u8> = Vec::new();
                 let r = catch(|| with_builder!(&mut builder, b, b.compile(&mut reference)));
                 let ok = match r {
